@@ -237,7 +237,7 @@ def run_forwarding(repo, task):
                         ob(f'{q}:crossed:{k.arg}', False, f'{delegate}(... {k.arg}={k.value.id} ...)', q)
         return found
     n = 0
-    if task.get('pid') == 'C15':
+    if task.get('name', '').startswith('C15-arg'):
         # position / label of the extreme value: skipna and axis reach the arg-reduction primitive, and min goes to argmin, max to argmax
         for mod, cls, dim in (('frame.py', 'Frame', '2d'), ('series.py', 'Series', '1d')):
             for m in ('iloc_min', 'loc_min', 'iloc_max', 'loc_max'):
@@ -246,6 +246,16 @@ def run_forwarding(repo, task):
                    samples=[dict(obligation=i['name'], verdict=i['verdict']) for i in items[:3]], trusted=[], assumptions=[], wall_s=round(time.time() - t0, 2))
         if n != 8:
             rep['detail'] = f'{n} of 8 arg-reduction methods call their primitive exactly once: the generator no longer matches the source layout'
+        return rep
+    if task.get('name', '').startswith('C19-reduction'):
+        # a Batch hands every argument of a reduction on to its Frames under the argument's own name; so does a Frame to its block store
+        for mod, cls, m, d in (('batch.py', 'Batch', '_ufunc_axis_skipna', '_apply_attr'), ('batch.py', 'Batch', '_ufunc_shape_skipna', '_apply_attr'),
+                               ('frame.py', 'Frame', '_ufunc_axis_skipna', 'ufunc_axis_skipna')):      # (a Series is one vector: composable / dtypes / size_one_unity have no use there)
+            n += check(mod, cls, m, d)
+        rep = dict(name=task['name'], status='ok' if n == 3 else 'checker-fault', items=items, failures=failures, evaluations=0, distinct=0, rule='',
+                   samples=[dict(obligation=i['name'], verdict=i['verdict']) for i in items[:3]], trusted=[], assumptions=[], wall_s=round(time.time() - t0, 2))
+        if n != 3:
+            rep['detail'] = f'{n} of 3 reduction forwarding methods found with exactly one delegate call'
         return rep
     n += check('node_iter.py', 'IterNodeWindow', '__call__', 'get_delegate')
     n += check('node_iter.py', 'IterNodeGroup', '__call__', 'get_delegate')
